@@ -120,7 +120,7 @@ func TestC07(t *testing.T) {
 	s := hx.Start(t, "C07")
 	defer s.Finish()
 	s.Guard(func() { Cfg() })
-	c07Part.Run(s, hx.PerShard(hx.Pick(40000, 800000)))
+	c07Part.Run(s, hx.PerShard(hx.Pick(40000, 2400000)))
 	c07Part.RunConcurrent(s, 8, hx.Pick(250, 4000))
 }
 
@@ -253,6 +253,6 @@ func TestC11(t *testing.T) {
 			c11Part.EvalCase(s, c11Case{H: h, Batch: []int{2, 2, 3, 4, 0, 5, 2, 6, 7, 1, 8, 9}})
 		}
 	}
-	c11Part.Run(s, hx.PerShard(hx.Pick(40000, 800000)))
+	c11Part.Run(s, hx.PerShard(hx.Pick(40000, 3200000)))
 	c11Part.RunConcurrent(s, 8, hx.Pick(250, 4000))
 }
